@@ -10,6 +10,7 @@
 set -u
 PATCH="$(readlink -f "$1")"; DEMO="$(readlink -f "$2")"; WT="${3:-/tmp/vs/wt}"
 mkdir -p "$(dirname "$WT")"
+LOGD="$WT.logs"; mkdir -p "$LOGD"
 if [ ! -d "$WT" ]; then git -C /repo worktree add --detach "$WT" HEAD >/dev/null 2>&1 || { echo '{"error":"worktree"}'; exit 2; }; fi
 cd "$WT" || exit 2
 git checkout -q --detach "$(git -C /repo rev-parse HEAD)" 2>/dev/null
@@ -22,23 +23,23 @@ run_demo() {
   if [ "$ext" = "rs" ]; then
     cp "$DEMO" tests/seed_demo_x.rs
     FEAT=""; grep -q "tsrun::ffi\|c-api" "$DEMO" && FEAT="--features c-api"
-    timeout 1800 cargo test --offline $FEAT --test seed_demo_x >/tmp/vs/demo.log 2>&1; rc=$?
+    timeout 1800 cargo test --offline $FEAT --test seed_demo_x >$LOGD/demo.log 2>&1; rc=$?
     rm -f tests/seed_demo_x.rs
     return $rc
   else
     # script demo: a .cmd file next to it holds the command line; {file} is replaced by the script path
     cmd="$(cat "${DEMO%.*}.cmd")"; cmd="${cmd//\{file\}/$DEMO}"
-    timeout 600 bash -c "$cmd" >/tmp/vs/demo.log 2>&1
+    timeout 600 bash -c "$cmd" >$LOGD/demo.log 2>&1
   fi
 }
 if $applies; then
-  if ! timeout 1800 cargo build --offline >/tmp/vs/build.log 2>&1; then
+  if ! timeout 1800 cargo build --offline >$LOGD/build.log 2>&1; then
     echo "{\"applies\":true,\"compiles\":false}"; git checkout -q -- .; exit 1
   fi
   if run_demo; then demo_fails=false; else demo_fails=true; fi
-  timeout 3000 cargo test --workspace --no-fail-fast --offline >/tmp/vs/suite.log 2>&1
-  suite_summary="$(grep -E '^test result' /tmp/vs/suite.log | awk '{p+=$4; f+=$6} END {print p" passed "f" failed"}')"
-  if grep -qE '^test result' /tmp/vs/suite.log && ! grep -qE '^test result: FAILED|[1-9][0-9]* failed' /tmp/vs/suite.log; then suite_ok=true; fi
+  timeout 3000 cargo test --workspace --no-fail-fast --offline >$LOGD/suite.log 2>&1
+  suite_summary="$(grep -E '^test result' $LOGD/suite.log | awk '{p+=$4; f+=$6} END {print p" passed "f" failed"}')"
+  if grep -qE '^test result' $LOGD/suite.log && ! grep -qE '^test result: FAILED|[1-9][0-9]* failed' $LOGD/suite.log; then suite_ok=true; fi
   git checkout -q -- .
   if run_demo; then demo_passes=true; fi
 fi
